@@ -121,6 +121,11 @@ func (r *FileReader) ReadNext() ([]byte, error) {
 				return nil, err
 			}
 
+			// the header (which is protected by its checksum) states how long the payload is once decompressed
+			if uint64(len(buf)) != payloadSizeUncompressed {
+				return nil, uncompressedSizeMismatch(r.file.Name(), payloadSizeUncompressed, len(buf))
+			}
+
 			return copyBuf(buf), nil
 		}
 
